@@ -205,6 +205,21 @@ CLAIMED['C10'] = {
             'bioLinearUtility is wrong in the external engine.',
 }
 
+CLAIMED['C16'] = {
+    'technique': 'Rocq proof over a model regenerated from source (tie A) + hand model with correspondence (tie B)',
+    'text': ('Axiom-free theorems about definitions regenerated on every run from configuration.py/controller.py (string id, selections setter with sorting and duplicate '
+             'detection, from_string, modify_controller): the id is invariant under listing order, injective and determines the configuration for names free of ; and :, '
+             'from_string(id) returns the same configuration, increasing then decreasing a controller by any integer step returns to the start for every size >= 1. Over '
+             'the hand model of catalogs/controllers: the number of configurations is the product of the controller sizes, the enumerated set is that product and any '
+             'iteration order visits every valid configuration exactly once, all catalogs of one controller select the configured member, the configured tree equals the '
+             'hand-substituted formula structurally (hence any function of it: signature, value), every operator of prepare_operators maps valid to valid for any step. '
+             'Tied by streams on random structures (shared/nested catalogs, helpers, from_dict): catalog tree as built, controllers, count, ids, iteration, every sampled '
+             'configuration (tree, selected names, elementary expressions, get_children/get_signature views, get_value), every operator with steps {1,2,size,size+1,...} '
+             'and its inverse. PARTIAL: values compared through Python get_value and identical canonical signatures, not through the C++ engine; two Controller objects '
+             'of one name are outside the model (open known finding).'),
+    'note': KERNEL + 'tie-A extractor lib/props/c16_extract.py (py2v + fail-closed AST templates); CPython semantics of str.split/sorted/dict/set as modelled; random.choices as an arbitrary oracle.',
+}
+
 _NOT_YET = 'check not built yet in this session (framework under construction); no claim made'
 NOT_APPLICABLE = {p: _NOT_YET for p in
                   ['C01', 'C02', 'C03', 'C04', 'C05', 'C06', 'C07', 'C08', 'C09', 'C10', 'C11', 'C12', 'C13',
